@@ -46,6 +46,15 @@ def write_package(case):
     os.mkdir(pkg)
     if case["pkg"] != "implicit":
         open(os.path.join(pkg, "__init__.py"), "w").close()
+    if case.get("clutter"):
+        # things that are not modules of the package and must simply be ignored
+        with open(os.path.join(pkg, "notes.txt"), "w") as f:
+            f.write("class NotPython:\n    MODE_NAME = 'from a text file'\n")
+        with open(os.path.join(pkg, "mod0.py.bak"), "w") as f:
+            f.write("raise RuntimeError('backup file imported')\n")
+        os.mkdir(os.path.join(pkg, "assets"))
+        with open(os.path.join(pkg, "assets", "deep.py"), "w") as f:
+            f.write("raise RuntimeError('module of a sub-directory imported')\n")
     for mi, m in enumerate(case["modules"]):
         src = ["from vf.labs import selector_reg as R", f"R.IMPORTED.append({mi})"]
         for ci, c in enumerate(m["classes"]):
@@ -119,6 +128,7 @@ def decode(code):
         else:
             ops.append(["periodic", ADV[a]])
     case["ops"] = ops
+    case["clutter"] = pkg_c in (3, 4, 10)
     return case
 
 
